@@ -76,6 +76,16 @@ Theorem C14_ruleset_one_bad_rejects : forall fixed proxy def rs1 r rs2,
 Proof. exact ruleset_one_bad_rejects. Qed.
 Print Assumptions C14_ruleset_one_bad_rejects.
 
+(** no definition — whatever sits under a mechanism key or under "config", "if" —
+    makes the factory panic: every malformed rule (set) is rejected (since fix
+    f8fe9cb; before it a non-string mechanism id or a non-map config panicked,
+    finding C19-F3) *)
+Theorem C14_loader_total : forall fixed proxy d r rs def,
+  load fixed proxy d r <> FactoryPanic /\ load fixed proxy d r <> Loaded Panic /\
+  load_rules fixed proxy def rs <> Panic.
+Proof. exact loader_total. Qed.
+Print Assumptions C14_loader_total.
+
 (** non-vacuity: a partial default rule and a rule defining only a finalizer *)
 Example C14_nonvacuous :
   let au := {| s_authn := Some {| k_id := Some 1; k_ok := true |}; s_authz := None; s_ctx := None;
